@@ -1,0 +1,85 @@
+// Copyright (C) 2026 Storj Labs, Inc.
+// See LICENSE for copying information.
+
+//go:build verif
+
+package drpcconn
+
+// Machine-checked contracts for this package (read by /verif/govc; comment-only).
+
+// The conn's mutex protects the reusable request buffer: a second Invoke may start as soon as the
+// previous stream closed asynchronously, so marshalling and sending happen under the lock.
+//@ monitor Conn.mu
+//@   protects wbuf
+
+// Set once by NewWithOptions, never assigned again (checked by a scan of every function of the package).
+//@ immutable Conn.tr, Conn.man
+//@   props C01 C02 C11 C12
+
+//@ func NewWithOptions
+//@   props C12 C02
+//@   requires tr != nil && opts.Manager.WriterBufferSize >= 0 && opts.Manager.WriterBufferSize <= 1073741824
+//@   modifies *
+//@   ensures [conn] result != nil && result.man != nil && result.man.wr != nil && result.tr == tr
+
+// doInvoke: the wire sequence of a unary call on the given stream: optional metadata first, the
+// invoke with the rpc name, the request bytes exactly as given, half-close, then one receive.
+//@ func (*Conn).doInvoke
+//@   props C01 C02 C11
+//@   requires stream != nil && stream.wr != nil && stream.wr.w != nil && enc != nil
+//@   modifies *
+//@   site (*Stream).RawWrite#1 assert [C11.metadata-first] arg0 == stream && arg1 == drpcwire.KindInvokeMetadata && sameSlice(arg2, metadata) && len(metadata) > 0 && eventCount("call:(*Stream).RawWrite") == 0
+//@   site (*Stream).RawWrite#2 assert [C01.invoke]  arg0 == stream && arg1 == drpcwire.KindInvoke && len(arg2) == len(rpc) && eventCount("call:(*Stream).RawWrite") == ite(len(metadata) > 0, 1, 0)
+//@   site (*Stream).RawWrite#3 assert [C02.request] arg0 == stream && arg1 == drpcwire.KindMessage && sameSlice(arg2, data)
+//@   site (*Stream).CloseSend assert [C01.half-close] arg0 == stream && eventCount("call:(*Stream).RawWrite") == ite(len(metadata) > 0, 3, 2)
+//@   site (*Stream).MsgRecv assert [C02.response] arg0 == stream && arg1 == out && arg2 == enc && eventCount("call:(*Stream).CloseSend") == 1
+//@   check [C01.sequence] err == nil ==> eventCount("call:(*Stream).MsgRecv") == 1
+
+// doNewStream: optional metadata first, then the invoke, on the given stream.
+//@ func (*Conn).doNewStream
+//@   props C01 C02 C11
+//@   requires stream != nil && stream.wr != nil && stream.wr.w != nil
+//@   modifies *
+//@   site (*Stream).RawWrite#1 assert [C11.metadata-first] arg0 == stream && arg1 == drpcwire.KindInvokeMetadata && sameSlice(arg2, metadata) && len(metadata) > 0 && eventCount("call:(*Stream).RawWrite") == 0
+//@   site (*Stream).RawWrite#2 assert [C01.invoke]  arg0 == stream && arg1 == drpcwire.KindInvoke && len(arg2) == len(rpc) && eventCount("call:(*Stream).RawWrite") == ite(len(metadata) > 0, 1, 0)
+//@   check [C01.sequence] result == nil ==> eventCount("call:(*Stream).RawWrite") == ite(len(metadata) > 0, 2, 1)
+
+// Invoke: the request is marshalled into the shared buffer and sent while the conn's mutex is held,
+// on the stream the manager just created for this call, which is closed on every path; metadata
+// found in the context is encoded and handed to doInvoke.
+//@ func (*Conn).Invoke
+//@   props C01 C02 C11
+//@   requires ctx != nil && enc != nil && c.man != nil && c.man.wr != nil && c.man.wr.w != nil
+//@   modifies *
+//@   ghost entry strm = nil
+//@   ghost after:(*Manager).NewClientStream strm = ret0
+//@   ghost entry nerr = nil
+//@   ghost after:(*Manager).NewClientStream nerr = ret1
+//@   ghost entry mdset = false
+//@   ghost after:Get mdset = ret1
+//@   ghost entry mdenc = nil
+//@   ghost after:Encode mdenc = ret0
+//@   site MarshalAppend assert [C02.marshal-under-lock] held(c.mu) && arg0 == in && arg1 == enc
+//@   site (*Conn).doInvoke assert [C02.own-request] held(c.mu) && arg1 == strm && strm != nil && arg2 == enc && arg3 == rpc && sameSlice(arg4, c.wbuf) && arg6 == out
+//@   site (*Conn).doInvoke assert [C11.metadata-passed] mdset ==> arg5 == mdenc
+//@   site (*Conn).doInvoke assert [C11.no-metadata] !mdset ==> len(arg5) == 0
+//@   check [C02.stream-closed] eventCount("call:(*Manager).NewClientStream") == 1 && nerr == nil ==> eventCount("call:(*Stream).Close") == 1
+
+// NewStream: like Invoke without a request; on a failing setup the stream is closed.
+//@ func (*Conn).NewStream
+//@   props C01 C02 C11
+//@   requires ctx != nil && c.man != nil && c.man.wr != nil && c.man.wr.w != nil
+//@   modifies *
+//@   ghost entry strm = nil
+//@   ghost after:(*Manager).NewClientStream strm = ret0
+//@   ghost entry nerr = nil
+//@   ghost after:(*Manager).NewClientStream nerr = ret1
+//@   ghost entry mdset = false
+//@   ghost after:Get mdset = ret1
+//@   ghost entry mdenc = nil
+//@   ghost after:Encode mdenc = ret0
+//@   ghost entry serr = nil
+//@   ghost after:(*Conn).doNewStream serr = ret
+//@   site (*Conn).doNewStream assert [C02.own-stream] arg1 == strm && strm != nil && arg2 == rpc
+//@   site (*Conn).doNewStream assert [C11.metadata-passed] (mdset ==> arg3 == mdenc) && (!mdset ==> len(arg3) == 0)
+//@   check [C02.closed-on-error] serr != nil ==> eventCount("call:(*Stream).Close") == 1 && err != nil
